@@ -5,10 +5,12 @@
 mod exec;
 mod exec2;
 mod gen;
+mod malformed;
 mod props;
 mod registry;
 mod rng;
 mod text;
+mod wiregen;
 
 use std::collections::BTreeMap;
 use std::io::{BufRead, Write};
@@ -19,6 +21,10 @@ fn main() {
     if args.len() < 3 {
         eprintln!("usage: ippverif run|exec <PROP> ...");
         std::process::exit(2);
+    }
+    if args[1] == "bombchild" {
+        exec2::bomb_child(&args[2], args.get(3).and_then(|s| s.parse().ok()).unwrap_or(1));
+        return;
     }
     let prop = args[2].clone();
     let mut tier = "quick".to_string();
